@@ -10,7 +10,7 @@ namespace ALV.C17
     first `close`; there every flag must be set -/
 def goCheck (cfg : Cfg) : List Bool → List Cmd → Bool
   | _, [] => true
-  | g, .play _ :: r => goCheck cfg (g ++ [true]) r
+  | g, .play _ _ :: r => goCheck cfg (g ++ [true]) r
   | g, .ctl k i :: r => goCheck cfg (g.set i (ctlGo cfg k)) r
   | g, .join _ :: r => goCheck cfg g r
   | g, .close :: _ => g.all id
@@ -25,7 +25,7 @@ def gosAux (m : MPc) (g : List Bool) : List Bool :=
 
 def pendAux (m : MPc) (sc : List Cmd) : List Cmd :=
   match m with
-  | .pAcq a => .play a :: sc
+  | .pAcq a c => .play a c :: sc
   | .cAcq k i | .cEvt k i => .ctl k i :: sc
   | .kHAcq => .close :: sc
   | _ => sc
